@@ -121,6 +121,16 @@ def eval_script(item):
     return None
 
 
+def _inline(text):
+    """The same document written on one line (bindings parsed from one-line source carry other trivia, which decides
+    e.g. whether a re-created binding compares equal to a removed one)."""
+    import re
+
+    return re.sub(r"\s*\n\s*", " ", text.strip()) + "\n"
+
+
+DOCS.update({k + "@inline": _inline(v) for k, v in list(DOCS.items()) if not k.endswith("inline")})
+DOCS14.update({k + "@inline": _inline(v) for k, v in list(DOCS14.items())})
 ALL_DOCS = dict(DOCS, **DOCS14)
 
 
